@@ -625,6 +625,10 @@ def run(an: Analysis, rep):
     rep.run(_agr9, an, rep, "R09.A", ["from_code"])
     rep.run(table_sequences_rule, an, rep)
     rep.run(negative_index_rule, an, rep)
+    from . import c08 as _c08k9
+    from .common import SharedRules as _SR9k
+    rep.run(_c08k9.r084, an, _SR9k(rep, "R09.K", "the key that says which entries of the constants table repeat one another tells apart what CPython tells apart (shared with C08's R08.4): a coarser key pins "
+                                                 "entries of a table that is in first-use order"), rule="R09.K")
     f, ifst, assign, mapattr, idx = find_rank_site(an)
     self_ = f.params[0]
     rank = assign.value
